@@ -392,9 +392,8 @@ def decodeXrefStream (d : Dict) (content : Bytes) : Outcome (XTable × Nat × Di
     | some (a :: b :: c :: _) =>
       if a < 0 || b < 0 || c < 0 then .err "InvalidXref" else
       -- widths are bounded by the data; rows without width cannot be counted against the data
-      let dataLen : Int := content.length
-      let zeroRows := a == 0 && b == 0 && c == 0
-      if a > dataLen || b > dataLen || c > dataLen || (zeroRows && anyPositiveCount index) then .err "InvalidXref" else
+      if a > (content.length : Int) || b > (content.length : Int) || c > (content.length : Int)
+          || ((a == 0 && b == 0 && c == 0) && anyPositiveCount index) then .err "InvalidXref" else
       (match xrefSections a.toNat b.toNat c.toNat index content [] with
        | .ok x =>
          let d1 := ((d.remove LENGTH).remove W_KEY).remove INDEX
@@ -427,6 +426,17 @@ where
 def PREV : Bytes := [80, 114, 101, 118]
 def XREFSTM : Bytes := [88, 82, 101, 102, 83, 116, 109]
 
+/-- hybrid-reference files: merge the cross-reference stream named by `XRefStm` -/
+def hybridMerge (buf : Bytes) (x1 : XTable) (stm : Option Obj) : Outcome XTable :=
+  match stm.bind Obj.asInt with
+  | none => .ok x1
+  | some p =>
+    if p < 0 || p.toNat > buf.length then .err "StreamStart"
+    else match xrefAndTrailer (buf.drop p.toNat) with
+      | .ok (sx, _, _) => .ok (x1.merge sx)
+      | .err e => .err e
+      | .panic s => .panic s
+
 /-- the `Prev` loop of `Reader::read`: `seen` = already visited offsets; fuel = number of
 possible distinct offsets + 1 (the `already_seen` guard makes every round use a new offset) -/
 def prevLoop (buf : Bytes) : Nat → Option Obj → List Int → XTable → Dict → Outcome (XTable × Dict)
@@ -446,15 +456,7 @@ def prevLoop (buf : Bytes) : Nat → Option Obj → List Int → XTable → Dict
           -- hybrid-reference: `trailer.remove(XRefStm)` on the NEWEST trailer
           let stm := tr.get XREFSTM
           let tr1 := tr.remove XREFSTM
-          let x2 : Outcome XTable :=
-            match stm.bind Obj.asInt with
-            | none => .ok x1
-            | some p =>
-              if p < 0 || p.toNat > buf.length then .err "StreamStart"
-              else match xrefAndTrailer (buf.drop p.toNat) with
-                | .ok (sx, _, _) => .ok (x1.merge sx)
-                | .err e => .err e
-                | .panic s => .panic s
+          let x2 : Outcome XTable := hybridMerge buf x1 stm
           match x2 with
           | .ok x3 => prevLoop buf fuel (ptr.get PREV) (prev :: seen) x3 tr1
           | .err e => .err e
@@ -593,6 +595,31 @@ def permuteBlocks (bs : List Block) (order : List Nat) : List Block :=
   let restB := (sorted.zipIdx.filter fun (_, i) => !usedIdx.contains i).map (·.1)
   named ++ restB
 
+/-- one step of the object-loading pass of `Reader::read`: read the object of an in-use entry
+(container objects also contribute a block of members) -/
+def loadStep (buf : Bytes) (x : XTable) (nEntries : Nat) (acc : Outcome (LObjects × List Block)) (e : Nat × XEntry) :
+    Outcome (LObjects × List Block) :=
+  match acc with
+  | .ok (os, fromStm) =>
+    (match e.2 with
+     | .normal off _ =>
+       if off > buf.length then .ok (os, fromStm) else
+       (match pIndirect (lengthOf buf x (nEntries + 1) []) none off (buf.drop off) with
+        | none => .ok (os, fromStm)
+        | some (id, lo) =>
+          (match lo with
+           | .plain (.stream d c) =>
+             if Dict.getTypeIs d OBJSTM then
+               (match objStmObjects d c with
+                | .ok objs => .ok (os.insert id lo, fromStm ++ [(id, objs)])
+                | .err "ext" => .err "ext"
+                | .err _ => .ok (os, fromStm)       -- `ObjectStream::new(..).ok()?` drops the container too
+                | .panic s => .panic s)
+             else .ok (os.insert id lo, fromStm)
+           | _ => .ok (os.insert id lo, fromStm)))
+     | .compressed _ _ => .ok (os, fromStm))
+  | o => o
+
 /-- `Reader::read`; `order = none`: blocks in the order the sequential reader appends them
 (ascending cross-reference key); `some p`: the order chosen through hook H1 -/
 def loadDocOrd (order : Option (List Nat)) (file : Bytes) : Outcome Loaded :=
@@ -629,28 +656,7 @@ def loadDocOrd (order : Option (List Nat)) (file : Bytes) : Outcome Loaded :=
           let xs' := x.sorted
           let nEntries := xs'.length
           -- read every in-use object
-          let step := fun (acc : Outcome (LObjects × List Block)) (e : Nat × XEntry) =>
-            match acc with
-            | .ok (os, fromStm) =>
-              (match e.2 with
-               | .normal off _ =>
-                 if off > buf.length then .ok (os, fromStm) else
-                 (match pIndirect (lengthOf buf x (nEntries + 1) []) none off (buf.drop off) with
-                  | none => .ok (os, fromStm)
-                  | some (id, lo) =>
-                    (match lo with
-                     | .plain (.stream d c) =>
-                       if Dict.getTypeIs d OBJSTM then
-                         (match objStmObjects d c with
-                          | .ok objs => .ok (os.insert id lo, fromStm ++ [(id, objs)])
-                          | .err "ext" => .err "ext"
-                          | .err _ => .ok (os, fromStm)       -- `ObjectStream::new(..).ok()?` drops the container too
-                          | .panic s => .panic s)
-                       else .ok (os.insert id lo, fromStm)
-                     | _ => .ok (os.insert id lo, fromStm)))
-               | .compressed _ _ => .ok (os, fromStm))
-            | o => o
-          match xs'.foldl step (.ok ([], [])) with
+          match xs'.foldl (loadStep buf x nEntries) (.ok ([], [])) with
           | .panic s => .panic s
           | .err e => .err e
           | .ok (os, fromStm) =>
